@@ -186,7 +186,7 @@ PROPS = {
     ),
     "C16": dict(
         stages=[dict(test="TestC16", pkg="c16", quick=(16, 18), thorough=(16, 2000), timeout=dict(quick=900, thorough=3400))],
-        rule="case = 2-4 accounts, 2-3 bonded rate-1 validators, genesis AllowedDenoms in {[uband],[uband,uatom],[],[uatom]}, and 20-60 late-bound ops "
+        rule="case = 2-4 accounts, 2-3 rate-1 validators (in half of the cases the smallest one starts Unbonded outside the active set and may swap places with another one), genesis export/import round trips, genesis AllowedDenoms in {[uband],[uband,uatom],[],[uatom]}, and 20-60 late-bound ops "
              "(stake/unstake multi-denom, delegate/undelegate/redelegate/full removal, lock updates from vaults feeds (real MsgVote) / feedsx / tunnel / a "
              "(keeper level), vault deactivation, allowed-denom change through gov, re-locks relative to the vault's old lock after such a change: old-1/old/old+1/mid/power+1) with amounts at lock-1/lock/lock+1, 0, 2^63, 2^64-1; non-trivial = "
              "an account with >=2 active vaults of different locks AND a withdrawal rejected while leaving exactly maxLock-1; distinct = hash of case JSON",
@@ -198,7 +198,7 @@ PROPS = {
     ),
     "C17": dict(
         stages=[dict(test="TestC17", pkg="c17", quick=(16, 25), thorough=(16, 2500), timeout=dict(quick=900, thorough=3300))],
-        rule="case = tunnel params (multi-denom MinDeposit, base fee), 3 accounts, 20-60 late-bound ops (create/deposit/withdraw/activate/deactivate/trigger/fund/MsgUpdateSignalsAndInterval by creator or stranger on active and inactive tunnels with in-range, boundary and just-out-of-range configs/end block) on 1-3 tunnels with amounts placed around the minimum, own deposit and balance; non-trivial = "
+        rule="case = tunnel params (multi-denom MinDeposit, base fee), 3 accounts, 20-60 late-bound ops (create/deposit/withdraw/activate/deactivate/trigger/fund/genesis export-import round trip/MsgUpdateSignalsAndInterval by creator or stranger on active and inactive tunnels with in-range, boundary and just-out-of-range configs/end block) on 1-3 tunnels with amounts placed around the minimum, own deposit and balance; non-trivial = "
              ">=2 simultaneous depositors on one tunnel AND >=1 successful withdrawal crossing the minimum; distinct = hash of case JSON",
         explanation="reference ledger advanced only by successful txs; after every block: TotalDeposit == sum of deposit records == ledger, "
                     "module balance == deposits + recorded fees, exact balance deltas, no overdraw, activation only by creator with total >= min, "
@@ -227,7 +227,7 @@ PROPS = {
         stages=[dict(test="TestC07", pkg="c07", quick=(16, 25), thorough=(16, 2500), timeout=dict(quick=900, thorough=3300))],
         rule="case = 2-5 voters (delegations + restaked coins, 25% 'rich' with 2^66 of an 18-decimals token), feeds params (threshold, min/max "
              "interval, MaxCurrentFeeds 1-5, update interval 1-5) and a list of late-bound ops: votes with symbolic powers (threshold*k+-1, remaining "
-             "power +-1, 2^62/2^63-1 constants, int64-wrapping combinations, empty/duplicate/too many signals), re-votes (same total identical/redistributed, totals relative to the current lock), restake AllowedDenoms changes through real governance proposals (power drops below the lock without any hook running), delegate/undelegate/"
+             "power +-1, 2^62/2^63-1 constants, int64-wrapping combinations, empty/duplicate/too many signals), re-votes (same total identical/redistributed, totals relative to the current lock), restake AllowedDenoms changes through real governance proposals (power drops below the lock without any hook running), genesis export/import round trips, delegate/undelegate/"
              "stake/unstake, block ends across update blocks; non-trivial = >=1 accepted re-vote changing >=2 signals AND >=1 vote whose true sum is "
              "within 1 of the voter's power or above int64; distinct = hash of case JSON",
         explanation="big.Int reference model: accepted vote => mathematical sum <= voter power (no wrap-around acceptance); after every block Vote "
@@ -288,8 +288,7 @@ PROPS = {
         stages=[dict(test="TestC19", pkg="c19", quick=(16, 30), thorough=(16, 1500), timeout=dict(quick=900, thorough=3300),
                      crash_is_violation=True)],
         rule="case = sim chain with 1-4 validators and 1-4 data sources whose executables are 1..4096 bytes (incl. < 32), 1-3 transactions of 1-3 requests with 1-6 raw requests (repeated sources), 1-3 ROUNDS handled by the same daemon Context and file cache with owner/foreign MsgEditDataSource transactions between rounds and between a request and its handling (new bytes, same bytes, [do-not-modify], fee/treasury only), later rounds asking edited sources again, selection of the validator decided by the chain, RPC stub with injected "
-             "transient/permanent failures, executor stub with drawn outcome/delay per raw request, cache hit/miss, entry via handleRequest or "
-             "handleTransaction, order/GOMAXPROCS perturbation; non-trivial = a processed request selecting the validator with >=2 raw requests "
+             "transient/permanent failures, executor stub with drawn outcome/delay per raw request, cache hit/miss, oracle MaxReportDataSize 16/64/512 with executor outputs at max-1/max/max+1 (cut to the limit as the docker executor does, or not cut as the REST executor), every queued report DELIVERED to the chain in a real block, entry via handleRequest or handleTransaction, order/GOMAXPROCS perturbation; non-trivial = a processed request selecting the validator with >=2 raw requests "
              "AND >=1 injected failure actually served; distinct = hash of case JSON",
         explanation="after quiescence: exactly one MsgReportData per request selecting the validator (none otherwise), one raw report per external "
                     "id, exit code/output == stubbed outcome or 255 on load/executor failure, ValidateBasic and the chain's CheckValidReport accept it, the executable handed to the executor is the data source's executable at request time or at handling time (never an older one); each case is journalled before execution so a daemon panic (process death) yields the crashing case as replay",
